@@ -177,7 +177,8 @@ def _run_thermo(case, ctx):
     ads = pygaps.Adsorbate.find(case["ads"])
     fl = RU.fluid(ads.properties["backend_name"])
     lo, hi = fl.t_triple(), fl.t_crit()
-    Ts = [lo + (hi - lo) * (0.02 + 0.96 * f) for f in case["fracs"]]
+    # across the range, and right up to its ends (0.05 % from the triple point and from the critical point)
+    Ts = sorted([lo + (hi - lo) * (0.02 + 0.96 * f) for f in case["fracs"]] + [lo + (hi - lo) * 0.0005, lo + (hi - lo) * 0.995, lo + (hi - lo) * 0.9995])
     name = case["ads"]
     st, ptr = _call(ads.p_triple)
     st2, pc = _call(ads.p_critical)
@@ -185,6 +186,9 @@ def _run_thermo(case, ctx):
     if "exc" in (st, st2, st3):
         ctx.violation("Adsorbate.constants/raises", "p_triple/p_critical/molar_mass raised for a backend adsorbate", ads=name, got=[ptr, pc, M])
         return
+    for label, got, exp in (("p_triple", ptr, fl._p("P", lo, 0) if False else None), ("p_critical", pc, fl.p_crit())):
+        if exp is not None and not close(got, exp, 1e-9):
+            ctx.violation("Adsorbate.%s/value" % label, "constant differs from PropsSI", ads=name, got=got, expected=exp)
     st, tt = _call(ads.t_triple)
     st2, tc = _call(ads.t_critical)
     if st != "ok" or st2 != "ok" or not close(tt, lo, 1e-9) or not close(tc, hi, 1e-9):
@@ -229,7 +233,10 @@ def _run_thermo(case, ctx):
                 ctx.violation("Adsorbate.%s/value" % m, "value differs from PropsSI", ads=name, T=T, got=v[m], expected=e)
         psat = v["saturation_pressure"]
         if not (ptr * (1 - 1e-9) <= psat <= pc * (1 + 1e-9)):
-            ctx.violation("Adsorbate.saturation_pressure/outside-[p_triple,p_critical]/%s" % name, "saturation pressure not between triple and critical pressure", ads=name, T=T, p_sat=psat, p_triple=ptr, p_critical=pc)
+            # which side, and where: the backend's own saturation curve dips below its triple-pressure constant just above the triple
+            # point for a few fluids (pyGAPS passes both numbers through unchanged - checked against PropsSI above)
+            side = "below-triple-pressure" + ("-within-1%-of-the-triple-point" if T < lo + 0.01 * (hi - lo) else "") if psat < ptr else "above-critical-pressure"
+            ctx.violation("Adsorbate.saturation_pressure/%s/%s" % (side, name), "saturation pressure not between triple and critical pressure", ads=name, T=T, p_sat=psat, p_triple=ptr, p_critical=pc)
         if prev is not None and not (psat > prev[1]) and T > prev[0]:
             ctx.violation("Adsorbate.saturation_pressure/not-increasing", "saturation pressure does not rise with temperature", ads=name, T=[prev[0], T], p=[prev[1], psat])
         prev = (T, psat)
@@ -237,6 +244,11 @@ def _run_thermo(case, ctx):
             ctx.violation("Adsorbate.enthalpy_vaporisation/non-positive", "vaporisation enthalpy not positive", ads=name, T=T, got=v["enthalpy_vaporisation"])
         if v["enthalpy_vaporisation"] != v["enthalpy_liquefaction"]:
             ctx.violation("Adsorbate.enthalpy_vaporisation/alias", "enthalpy_vaporisation != enthalpy_liquefaction", ads=name, T=T)
+        # the same enthalpy asked for by pressure (at the saturation pressure of this temperature)
+        stp, hp = _call(ads.enthalpy_vaporisation, press=psat)
+        ctx.hook("enthalpy_by_pressure")
+        if stp != "ok" or not close(hp, v["enthalpy_vaporisation"], 1e-6):
+            ctx.violation("Adsorbate.enthalpy_vaporisation/by-pressure", "vaporisation enthalpy asked for by pressure differs from the one asked for by temperature", ads=name, T=T, by_pressure=hp, by_temperature=v["enthalpy_vaporisation"])
         if not (v["liquid_density"] > v["gas_density"] > 0):
             ctx.violation("Adsorbate.density/liquid<=gas", "liquid density not above vapour density", ads=name, T=T, liq=v["liquid_density"], gas=v["gas_density"])
         for unit, pa in RU.PA.items():
